@@ -139,6 +139,10 @@ def extra_instances():
     # hand-over to a suffix that offers several compatible descriptors (unequal / equal weights)
     add(M("C[>]", S("[>]", ["[<]CC[>]"], [], "[<]", g(30)), "[<|2|]CC([<|0.5|])C[<|0|]", name="handover-unequal"))
     add(M("C[>]", S("[>]", ["[<]CC[>]"], [], "[<]", g(30)), "[<]CC[<]", name="handover-uniform"))
+    add(M("C[>]", S("[>]", ["[<]CC[>]"], [], "[<]", g(30)), "[<|2|]CC([<|0.5|])C", name="handover-unequal-nonzero"))
+    # a zero-weight open descriptor next to a non-zero one (open pick, reserve, capping); equal end-group weights
+    add(M("C[>]", S("[>]", ["[<]C([>|0|])C[>|2|]"], ["[<][H]", "[<]F"], "[<]", g(30)), "[<]O", name="zero-open"))
+    add(M("C[>]", S("[>]", ["[<]C([>|0|])(C[>|2|])C[>|3|]"], ["[<][H]", "[<]F"], "[<]", g(30)), "[<]O", name="zero-open-3"))
     # fully compatible transition lists: unequal and uniform
     add(M("C[$]", S("[$]", ["[$|1 2 1|]CC[$|1 1 1|]"], ["[$][H]"], "[$]", g(50)), "[$]O", name="listed-all-compatible"))
     # directed descriptors with different ids in one object (alternating copolymer)
